@@ -511,6 +511,9 @@ func (m SmallMap) Delete(key Object) (Map, bool) {
 		m.smallKV[i] = m.smallKV[i+1]
 	}
 	m.len--
+	// Nothing may stay in the vacated slot: the map is compared and hashed (as a cache key) as a whole, and an
+	// unhashable left over value (a large array) there panics.
+	m.smallKV[m.len] = keyValuePair{}
 	return m, true
 }
 
